@@ -25,6 +25,7 @@ import (
 type Case struct {
 	Op       ops.WOp     `json:"op"`
 	Prepare  bool        `json:"prepare_stmt"`
+	ErrClass string      `json:"err_class,omitempty"` // injected errors wrap this well-known error (deadline, canceled, txdone, eof)
 	PoolShim bool        `json:"pool_shim"`      // gorm is opened on a ConnPool wrapper (ConnPoolBeginner path) instead of *sql.DB
 	MaxSites int         `json:"max_sites"`      // 0 = every site
 	Pick     int64       `json:"pick_seed"`      // seeds the site sample
@@ -36,7 +37,7 @@ type Prop struct{}
 func (Prop) ID() string    { return "C05" }
 func (Prop) Level() string { return "fault_enumeration" }
 func (Prop) Rule() string {
-	return "a case is one write operation over a seeded record graph; it is run fault-free to list its fault sites (each driver BEGIN/statement/COMMIT/Prepare x {error, error-after-apply, ErrBadConn x burst, lost COMMIT ack}, each delivered row x iterator error, each hook invocation x error) and re-run on a fresh database once per site (quick: a seeded sample of sites). An evaluation is one simulated run; it is non-trivial when its fault fired; distinct = distinct hash of (driver event sequence, hook sequence, outcome)"
+	return "a case is one write operation over a seeded record graph; it is run fault-free to list its fault sites (each driver BEGIN/statement/COMMIT/Prepare x {error, error-after-apply, ErrBadConn x burst, lost COMMIT ack}, each delivered row x iterator error, each hook invocation x error, each call into the connection pool x cancellation of the operation's context just before it; per case the injected errors are plain or wrap one well-known error: context.DeadlineExceeded, context.Canceled, sql.ErrTxDone, io.ErrUnexpectedEOF) and re-run on a fresh database once per site (quick: a seeded sample of sites). An evaluation is one simulated run; it is non-trivial when its fault fired; distinct = distinct hash of (driver event sequence, hook sequence, outcome)"
 }
 func (Prop) Assumptions() []string {
 	return []string{
@@ -50,6 +51,9 @@ func (Prop) Gen(r *core.Rand, tier string) interface{} {
 	c := &Case{Op: ops.GenWOp(r, ops.WriteKinds), Prepare: r.Chance(30), PoolShim: r.Chance(30), Pick: r.Int63()}
 	if tier != "thorough" {
 		c.MaxSites = 25
+	}
+	if r.Chance(50) {
+		c.ErrClass = r.Pick(simdrv.Classes)
 	}
 	return c
 }
@@ -73,6 +77,13 @@ func (Prop) Shrink(ci interface{}) []interface{} {
 	if c.Prepare {
 		v := *c
 		v.Prepare = false
+		v.Only = nil
+		v.MaxSites = 0
+		out = append(out, &v)
+	}
+	if c.ErrClass != "" {
+		v := *c
+		v.ErrClass = ""
 		v.Only = nil
 		v.MaxSites = 0
 		out = append(out, &v)
@@ -216,6 +227,7 @@ func (p Prop) Run(ci interface{}, focus *core.Violation) *core.Outcome {
 			}
 		}
 		ops.SortFaults(faults)
+		ops.ApplyClass(faults, c.ErrClass)
 		out.Count("sites_total", int64(len(faults)))
 		if c.MaxSites > 0 && len(faults) > c.MaxSites {
 			r := core.NewRand(c.Pick)
